@@ -11,6 +11,21 @@ CLAIMED = {
             "Seeded search over interleavings (object-store-request granularity) of 2..4 real ObjectStoreMetadataClients with injected request failures (before/after effect) and delays; every catalog.json version ever written is checked to be exactly one model step of exactly one in-flight operation, with index/map agreement on every version. Sampling, not proof: the quantifier is all schedules x histories, which only a search can approach.",
             "Trusts object_store::memory::InMemory as the model of S3 conditional PUT; a lost response (fail-after-effect) may legitimately leave one applied version behind a failed call.",
             "DESIGN.md section 3 C02"),
+    "C13": ("meta-cas", "exploration",
+            "deterministic simulation: seeded request-level interleaving of real catalog clients on shard objects + store fault injection; version-history check of the generation chain",
+            "Seeded search over interleavings of 2..4 real clients creating/updating shard metadata with fresh, stale and wrong expected generations, with injected request failures/delays; every version of shards/<id>.json is attributed to exactly one call whose expected generation equals the previous version's, generations rise by exactly one, at most one winner per base generation; ShardRouter is fed the observed versions in random order and must never regress. Sampling, not proof.",
+            "Trusts InMemory's conditional PUT as the model of S3; the in-memory backend's check-then-insert has no request to interleave at and is not covered.",
+            "DESIGN.md section 3 C13"),
+    "C08": ("meta-cas", "exploration",
+            "deterministic simulation: seeded request-level interleaving + virtual clock (time may pass between any request's GET and PUT) + store fault injection; per-version live-lease disjointness and refinement against a sequential lease model",
+            "Seeded search over interleavings of 2..4 nodes' acquire/renew/complete/fail/scavenge on overlapping chunk sets with drawn virtual pauses around the 300 s TTL and scheduler-chosen time advances inside operations; on every version of the lease file, live leases are pairwise disjoint at the write instant, and every version is exactly the sequential model's step of the one operation in flight with its clock reading inside the call window (so a live lease cannot be removed or handed on, a reclaimed lease cannot be renewed); bounded liveness: 301 s after the last op an uncontended acquire of all chunks succeeds.",
+            "All nodes read one clock (as the statement says); InMemory models S3 conditional PUT.",
+            "DESIGN.md section 3 C08"),
+    "C07": ("meta-cas", "exploration",
+            "deterministic simulation with a reference interval map: identical generated histories on both real backends, virtual clock ages the object-store client's cache, store faults on mutations; op-by-op differential against the model",
+            "Seeded generation of register/re-register/delete/complete histories with intervals and query ranges on hour boundaries +-1 ns, negative, zero-length, multi-day and inverted; after every operation both backends (and a second object-store client after its cache TTL elapsed in virtual time) must return exactly the model's answer for several ranges, plus list/get_chunk; a failed (fault-injected) mutation must leave lookups exact. The schedule dimension is small here (single writer); the simulator contributes the clock, the fault seam and the model.",
+            "History/interval generation is seeded input generation; concurrency on the catalog is C02's subject.",
+            "DESIGN.md section 3 C07"),
 }
 
 NOT_YET = {}
